@@ -56,61 +56,55 @@ def rule_who_send(ctx):
 def rule_frag(ctx):
     R = "C01.FRAG"
     fi = ctx.index.func(TLSREC + "_sendMsg")
-    loops = [n for n in own_nodes(fi.node) if isinstance(n, ast.While)]
-    ctx.require(len(loops) == 1, "C01.FRAG: fragmentation loop not found")
-    if not loops:
-        return
-    w = loops[0]
-    # the loop guard compares the length of the buffer B with the record size S (names are the code's own)
-    t = w.test
-    B = S = None
-    if isinstance(t, ast.Compare) and len(t.ops) == 1:
-        for side, other in ((t.left, t.comparators[0]), (t.comparators[0], t.left)):
-            if isinstance(side, ast.Call) and call_name(side) == "len" and side.args and isinstance(side.args[0], ast.Name):
-                B, S = side.args[0].id, norm(other)
-    if B is None:
-        ctx.fail(R, fi.qname, "fragmentation loop guard", "the fragmentation loop guard `%s` does not compare the "
-                 "remaining length with the record size" % norm(t), fi.loc(w))
-        return
-    check_cond(ctx, R, fi, w, w.test, {"len(%s)" % B: [0, 3, 4, 5, 9], S: [4]},
-               lambda e: e["len(%s)" % B] > e[S],
-               "fragment while the remaining message is longer than the record size",
-               "the fragmentation loop must run exactly while len(buf) > recordSize (a `>=` emits a "
-               "forbidden empty record after a message that fills the last fragment; `<`/wrong bound "
-               "sends oversized records)", closed=True)
-    ctx.check(R, S == "self.recordSize", fi.qname, "fragments are cut at self.recordSize",
-              "the fragmentation bound is `%s`, not the record size in force" % S, fi.loc(w))
-    head = tail = None
-    for i, st in enumerate(w.body):
-        if isinstance(st, ast.Assign) and len(st.targets) == 1 and isinstance(st.targets[0], ast.Name) \
-                and isinstance(st.value, ast.Subscript) and isinstance(st.value.value, ast.Name) \
-                and st.value.value.id == B and isinstance(st.value.slice, ast.Slice):
-            sl = st.value.slice
-            if sl.lower is None and sl.upper is not None and norm(sl.upper) == S and sl.step is None and head is None \
-                    and st.targets[0].id != B:
-                head = (i, st.targets[0].id)
-            if sl.upper is None and sl.lower is not None and norm(sl.lower) == S and sl.step is None \
-                    and st.targets[0].id == B:
-                tail = i
-    msgs = [st for st in w.body if isinstance(st, ast.Assign) and isinstance(st.value, ast.Call)
-            and call_name(st.value) == "Message" and len(st.value.args) == 2]
-    ok = head is not None and tail is not None and head[0] < tail and len(msgs) == 1 \
-        and norm(msgs[0].value.args[0]) == "contentType" and norm(msgs[0].value.args[1]) == head[1]
-    ctx.check(R, ok, fi.qname, "fragment = head of recordSize bytes, remainder kept",
-              "each fragment must be the first recordSize bytes and the remainder must be everything after them",
-              fi.loc(w))
-    sends = [n for n in own_nodes(fi.node) if isinstance(n, ast.For) and call_name(n.iter) == "_sendMsgThroughSocket"]
-    in_loop = [n for n in sends if any(x is n for x in ast.walk(w))]
-    after = [n for n in sends if n.lineno > w.end_lineno]
-    okl = len(in_loop) == 1 and bool(msgs) and norm(in_loop[0].iter.args[0]) == norm(msgs[0].targets[0])
-    ctx.check(R, okl, fi.qname, "every fragment is sent", "a fragment cut off in the loop is not sent (or something "
-              "else is)", fi.loc(w))
-    last = [n for n in fi.node.body if isinstance(n, ast.Assign) and isinstance(n.value, ast.Call)
-            and call_name(n.value) == "Message" and [norm(a) for a in n.value.args] == ["contentType", B]
-            and n.lineno > w.end_lineno]
-    okf = len(last) == 1 and len(after) == 1 and norm(after[0].iter.args[0]) == norm(last[0].targets[0])
-    ctx.check(R, okf, fi.qname, "the last fragment is the remaining buffer, sent once",
-              "the final fragment must carry what is left in the buffer and be sent", fi.loc())
+    # what _sendMsg puts on the wire, decided by interpreting it over sample messages (nothing of the
+    # library is run): the fragments are the message cut at recordSize, none empty unless the message is,
+    # and a handshake message enters the transcript whole, exactly once
+    from ..condeval import Rec
+    from .c01shared import run_method
+
+    class _Transcript(object):
+        _tlsverif_sample = True
+
+        def __init__(self):
+            self.fed = []
+
+        def update(self, data):
+            self.fed.append(bytes(data))
+    S = 16
+    n_ok = 0
+    for ctype, n in ((22, 0), (22, 1), (22, 15), (22, 16), (22, 17), (22, 32), (22, 33), (22, 40), (23, 16), (23, 48), (21, 2)):
+        body = bytes((i * 5 + 1) % 256 for i in range(n))
+        sent = []
+        tr = _Transcript()
+
+        def through(base, m, sent=sent):
+            sent.append((m.fields.get("contentType") if isinstance(m, Rec) else None,
+                         bytes(m.fields.get("data", b"")) if isinstance(m, Rec) else None))
+            return ()
+        msg = Rec(contentType=ctype, **{"write()": body})
+        env = {"self.recordSize": S, "self.version": (3, 3), "self._recordLayer.isCBCMode()": False,
+               "self._handshake_hash": tr, "ContentType.handshake": 22, "ContentType.application_data": 23}
+        try:
+            kind, val = run_method(ctx, fi, [msg], env, {
+                "_sendMsgThroughSocket": through,
+                "Message": lambda ct, data: Rec(contentType=ct, data=bytes(data))})
+        except (Unknown, TypeError, AttributeError, KeyError, IndexError, ValueError) as e:
+            raise AnalysisError("C01.FRAG: cannot interpret _sendMsg over a %d-byte message: %s" % (n, e))
+        want = [(ctype, body[i:i + S]) for i in range(0, n, S)] or [(ctype, b"")]
+        ok = kind in ("end", "return") and sent == want
+        ctx.check(R, ok, fi.qname, "fragments of a %d-byte message of type %d (recordSize %d)" % (n, ctype, S),
+                  "a %d-byte message of type %d with recordSize %d is sent as records of %s bytes; it must be cut "
+                  "into %s (no empty trailing record, nothing longer than the record size, bytes in order)" % (
+                      n, ctype, S, [len(d) if d is not None else "?" for _, d in sent], [len(d) for _, d in want]),
+                  fi.loc(), what="_sendMsg fragments a %d-byte message (type %d) at recordSize" % (n, ctype))
+        want_tr = [body] if ctype == 22 else []
+        ctx.check(R, tr.fed == want_tr or (b"".join(tr.fed) == body and ctype == 22 and len(tr.fed) >= 1 and n == 0),
+                  fi.qname, "transcript of a %d-byte message of type %d" % (n, ctype),
+                  "a %d-byte message of type %d enters the handshake transcript as %s; %s" % (
+                      n, ctype, [len(x) for x in tr.fed],
+                      "the whole message must be hashed exactly once" if ctype == 22 else "only handshake messages are hashed"),
+                  fi.loc(), what="_sendMsg hashes a handshake message whole, once (%d bytes, type %d)" % (n, ctype))
+        n_ok += 1
     rsz = ctx.index.func(TLSREC + "recordSize")
     ret = [n for n in own_nodes(rsz.node) if isinstance(n, ast.Return)]
     if ret:
